@@ -3,6 +3,9 @@ import IpfixModel.Model.Collector
 import IpfixModel.Model.Registry
 import IpfixModel.Model.Exporter
 import IpfixModel.Spec.Exp
+import IpfixModel.Model.Agg
+import IpfixModel.Spec.C06
+import IpfixModel.Spec.C07
 import Std.Data.HashMap
 namespace Driver
 open Ipfix
@@ -26,5 +29,8 @@ structure DState where
   e2eColl : CState := {}
   e2eMode : Mode := .strict
   e2eSpecDom : Nat := 0
+  agg : Agg.State := {}
+  aggSpec : C06.Tracker := {}
+  aggCorr : C07.Tracker := {}
 
 end Driver
